@@ -277,15 +277,18 @@ theorem PeerAuth.setPassword {cfg : Config} {us : List User} {p : Peer} (h : Pee
     · rw [findUser_setPassword, h2]; rfl
     · split <;> exact h3
 
+/-- the assignment a successful `authenticate` makes to the peer -/
+def authUpd (cfg : Config) (auth : Json) (u : Bytes) (q : Peer) : Peer :=
+  { q with fetchGroups := getGroups cfg (auth.getItem (k "fetchGroups")),
+           setGroups := getGroups cfg (auth.getItem (k "setGroups")),
+           callGroups := getGroups cfg (auth.getItem (k "callGroups")), user := some u }
+
 /-- what one request does to the authentication data -/
 def AuthEff (cfg : Config) (s : State) (c : Nat) (req : Json) (s' : State) : Prop :=
   AuthSame s s' ∨
   (∃ u pw usr auth, getCredentials req = .ok u pw ∧ findUser s.users u = some usr ∧ usr.password = pw ∧
       usr.auth = some auth ∧ s'.users = s.users ∧
-      s'.peers = updatePeer s.peers c (fun q =>
-        { q with fetchGroups := getGroups cfg (auth.getItem (k "fetchGroups")),
-                 setGroups := getGroups cfg (auth.getItem (k "setGroups")),
-                 callGroups := getGroups cfg (auth.getItem (k "callGroups")), user := some u })) ∨
+      s'.peers = updatePeer s.peers c (authUpd cfg auth u)) ∨
   (∃ name pw, s'.peers = s.peers ∧ s'.users = setPassword s.users name pw)
 
 theorem AuthInv.of_eff {cfg : Config} {s s' : State} {c : Nat} {req : Json} (h : AuthInv cfg s)
